@@ -20,7 +20,10 @@ static int classify() {
   catch (std::exception&) { return 9; }
 }
 static std::vector<std::string> plabels(const ezc3d::c3d& c) { return c.parameters().group("POINT").parameter("LABELS").valuesAsString(); }
-static std::vector<std::string> alabels(const ezc3d::c3d& c) { return c.parameters().group("ANALOG").parameter("LABELS").valuesAsString(); }
+static std::vector<std::string> alabels(const ezc3d::c3d& c) {
+  if (!c.parameters().group("ANALOG").nbParameters()) return std::vector<std::string>();      // Optotrak layout: an ANALOG group without parameters declares no channel
+  return c.parameters().group("ANALOG").parameter("LABELS").valuesAsString();
+}
 static size_t subframes(const ezc3d::c3d& c) { size_t s = c.header().nbAnalogByFrame(); return s ? s : 1; }
 static std::string num(const char* p, size_t i) { std::string s(p); s.push_back(char('0' + i % 10)); return s; }
 
@@ -226,7 +229,7 @@ static int apply(ezc3d::c3d*& c, unsigned op) {
 }
 
 static ezc3d::c3d* start_state(int s) {
-  if (s == 3 || s == 4) return new ezc3d::c3d("in.c3d");
+  if (s >= 3) return new ezc3d::c3d("in.c3d");
   ezc3d::c3d* c = new ezc3d::c3d();
   if (s >= 1) {
     set_rate(*c, "POINT", 100.f); set_rate(*c, "ANALOG", 200.f);
@@ -243,6 +246,9 @@ extern "C" int h_hist() {
   for (int k = 0; k < depth; ++k) {
     dump_all(*c, "before", false);
     unsigned op = __vp_choice("op", NOPS);
+    // start 5 is an object whose ANALOG group holds no parameter at all (Optotrak layout).  Giving it ONE of the mandatory ANALOG
+    // parameters makes a partially declared group, which is outside the claim (the mandatory parameters are a precondition of every call)
+    if (start == 5 && (op == 29 || op == 30 || op == 31 || op == 46)) __vp_assume(0);
     __vp_tag("call");
     __vp_obs_u64("call.op", op);
     out = apply(c, op);
